@@ -120,8 +120,7 @@ impl<DB: ExtDatabase> DbSession<DB> {
         let profile_id = match &mut self.profile_key {
             DbSessionKey::Pending { cache, profile } => {
                 let cache = cache.clone();
-                let mut get_profile = String::new();
-                std::mem::swap(profile, &mut get_profile);
+                let get_profile = profile.clone();
                 let in_txn = self.in_transaction();
                 let (profile_id, key) = init_key
                     .call_once(self.connection_mut().unwrap(), cache, get_profile, in_txn)
